@@ -5,9 +5,22 @@
   and the solution is unique. The C recursion / Four-Russians base cases themselves: see M4riProofs/TrsmRec.lean
   (when present) — otherwise tied by correspondence only (`…_partial` in the sense of the evidence file).
   In Mathlib's terms (`ML`): each solve is multiplication by Mathlib's matrix inverse of the unit triangular matrix.
+  END TO END (M4riProofs/TrsmBase.lean, collected in M4riProofs/Top.lean, PB27) — the COMPLETE C routines
+  `_mzd_trsm_lower_left`, `_mzd_trsm_upper_left`, `_mzd_trsm_lower_right`, `_mzd_trsm_upper_right` (regime switches,
+  recursion, and the real base cases: the 64-row kernels, the Four-Russians routines `_mzd_trsm_*_russian` with their
+  automatic `k`, the 64-column parity kernels, the inversion regime through `mzd_trtri_upper`) are mirrored
+  (`TB.trsmLowerLeftC` … `TB.trsmUpperRightC`, M4ri/TrsmBase.lean) and proved EQUAL to the substitution forms for every
+  well-formed `B`, a triangular argument with the right number of rows, every prior content of the index arrays and the
+  build parameters `Top.paramsOf L1 L2 L3 sse2` of EVERY cache triple: `Top.trsm_lower_left`, `Top.trsm_upper_left`,
+  `Top.trsm_lower_right` (no hypothesis), `Top.trsm_upper_right` (+ `…_solves`, `…_mathlib` each). Nothing is per-input
+  certification. Two hypotheses remain, on `_mzd_trsm_upper_right` only, both necessary: `15 ≤ L3` (holds in every
+  admissible configuration, `Top.Admissible.l3`) and, beyond 64 columns, a stored diagonal of ones — the C routine then
+  inverts the stored triangle, `TB.upperRightFull_eq_full_false` is a kernel-checked 65-column counterexample to the
+  "diagonal implied" reading.
 -/
 import M4riProofs.Trsm
 import M4riProofs.MathlibSpec
+import M4riProofs.Top
 namespace M4ri.Props.C04
 open M4ri M4ri.BMat
 
@@ -44,5 +57,36 @@ theorem upper_right_solves {U B : BMat} (hUr : U.nrows = B.ncols) (hUc : U.ncols
 #check @M4ri.BMat.ML.det_mat_unitUpper
 #check @M4ri.BMat.ML.mat_unitLower_isLowerTriangular
 #check @M4ri.BMat.ML.mat_unitUpper_isUpperTriangular
+
+
+-- the complete C routines, every cache triple (M4riProofs/Top.lean re-exports of M4riProofs/TrsmBase.lean)
+#check @M4ri.BMat.Top.paramsOf
+#check @M4ri.BMat.Top.paramsOf_repo
+#check @M4ri.BMat.Top.Admissible.l3
+#check @M4ri.BMat.Top.trsm_lower_left
+#check @M4ri.BMat.Top.trsm_lower_left_solves
+#check @M4ri.BMat.Top.trsm_lower_left_mathlib
+#check @M4ri.BMat.Top.trsm_upper_left
+#check @M4ri.BMat.Top.trsm_upper_left_solves
+#check @M4ri.BMat.Top.trsm_upper_left_mathlib
+#check @M4ri.BMat.Top.trsm_lower_right
+#check @M4ri.BMat.Top.trsm_lower_right_solves
+#check @M4ri.BMat.Top.trsm_lower_right_mathlib
+#check @M4ri.BMat.Top.trsm_upper_right
+#check @M4ri.BMat.Top.trsm_upper_right_solves
+#check @M4ri.BMat.Top.trsm_upper_right_mathlib
+#check @M4ri.BMat.Top.trsm_upper_right_adm
+#check @M4ri.BMat.TB.lowerLeftFull_eq
+#check @M4ri.BMat.TB.upperLeftFull_eq
+#check @M4ri.BMat.TB.lowerRightFull_eq
+#check @M4ri.BMat.TB.upperRightFull_eq_partial
+#check @M4ri.BMat.TB.upperRightFull_eq_small
+#check @M4ri.BMat.TB.upperRightFull_eq_full_false
+#check @M4ri.BMat.TB.lowerLeftRussian_eq
+#check @M4ri.BMat.TB.upperLeftRussian_eq
+#check @M4ri.BMat.TB.lowerLeftKernel_eq
+#check @M4ri.BMat.TB.upperLeftKernel_eq
+#check @M4ri.BMat.TB.upperRightBase_eq
+#check @M4ri.BMat.TB.lowerRightBase_eq
 
 end M4ri.Props.C04
